@@ -8,7 +8,7 @@ CONFIG = {
         "strace fault injection (SIGKILL delivered at syscall entry, the call is not executed) as the means of killing the saving child at a chosen system call",
         "process death only: the page cache survives, no fsync ordering is claimed (power loss is out of scope)",
     ],
-    "modelled": ["fav.FavRaw.AddBoard/AddLine/AddFolder (limits)", "fav.FavRaw.cleanup/isNeedRebuildFav/rebuildFav/increase",
+    "modelled": ["fav.FavRaw.AddBoard/AddLine/AddFolder (MAX_FAV on the root total; MAX_LINE / MAX_FOLDER on the receiving folder at any depth)", "fav.FavRaw.cleanup/isNeedRebuildFav/rebuildFav/increase",
                  "fav.FavRaw.WriteFavrec", "fav.ReadFavrec", "fav.Load (regular .fav file)", "fav.FavRaw.Save/checkIsToSave",
                  "types.BinRead/BinWrite (padding to the C struct size; the reader seeks over the pad)",
                  "ptt.WriteFavorites (temp file + rename)",
